@@ -3,7 +3,7 @@ CONSTANTS
   KeepHist = FALSE
   MaxS = 2
   MaxW = 2
-  Srcs = {"d", "a", "c", "S", "da"}
-  Wts = {"w", "t", "i", "o", "wi", "tw"}
+  Srcs = {"d", "c", "S"}
+  Wts = {"w", "t", "o", "wi", "tw"}
 PROPERTY EventuallyQuiescent
 CHECK_DEADLOCK FALSE
